@@ -1,17 +1,17 @@
 #!/bin/bash
-# usage: seedimport.sh <Cxx>   -- imports /tmp/wt2-<Cxx>/SEED-A and SEED-B as seeded/<Cxx>-2a and <Cxx>-2b, then runs seedcheck on each
+# usage: seedimport.sh <Cxx> [round]  -- imports /tmp/wt<round>-<Cxx>/SEED-A and SEED-B as seeded/<Cxx>-<round>a and -<round>b (round defaults to 2), then runs seedcheck on each
 set -u
-id="$1"
+id="$1"; rnd="${2:-2}"
 for v in A B; do
-  src=/tmp/wt2-$id/SEED-$v
+  src=/tmp/wt$rnd-$id/SEED-$v
   [ -f "$src/patch.diff" ] || { echo "$id $v: no patch"; continue; }
   lv=$(echo $v | tr A-Z a-z)
-  dst=/verif/seeded/$id-2$lv
+  dst=/verif/seeded/$id-$rnd$lv
   rm -rf "$dst"; mkdir -p "$dst"
   cp "$src/patch.diff" "$dst/"; cp "$src/notes.md" "$dst/" 2>/dev/null; cp -r "$src/demo" "$dst/demo"
   echo "SEED-$v" > "$dst/seeddir"
   /verif/scripts/seedcheck.sh $id "$dst" > "$dst/.seedcheck.out" 2>&1
-  echo "=== $id-2$lv: $(head -1 $dst/notes.md | cut -c1-150)"
+  echo "=== $id-$rnd$lv: $(head -1 $dst/notes.md | cut -c1-150)"
   grep -E "^(PATCH|tests:|demo exit|C[0-9]+: [0-9]+ finding)" "$dst/.seedcheck.out"
   grep -E "^FINDING" "$dst/.seedcheck.out" | sed -E 's/^FINDING rule=([^ ]+) construct="([^"]*)".*/   \1 | \2/' | cut -c1-150 | sort -u | head -6
 done
